@@ -90,8 +90,11 @@ package chunkinfo
 //@ extern func (github.com/gauss-project/aurorafs/pkg/storage.StateStorer).Put
 //@   assigns nothing
 //@ # local helpers that do not look at message content
+//@ # every update of the availability records goes through this dispatcher: counted (ghost)
+//@ ghost recordUpdates int
 //@ extern func (*ChunkInfo).chunkPutChanUpdate
-//@   assigns nothing
+//@   assigns ghost recordUpdates
+//@   ensures recordUpdates == old(recordUpdates) + 1
 //@ extern func (*ChunkInfo).getChunkSize
 //@   assigns nothing
 //@ # (the keys of the node's own pyramid are written by Address.String)
@@ -182,3 +185,23 @@ package chunkinfo
 //@   property C37
 //@   requires ciOK(ci)
 //@   loop 1 invariant ciOK(ci) && 0 - 1 <= rangeindex && rangeindex < len(resps) && pyramid != nil
+
+//@ # ---- C17: deleting a file removes chunks while the file still counts its references ------------
+//@ # The callers' del callback picks the chunks to drop by the pyramid's reference counts (a chunk
+//@ # another tracked file also holds is kept); it therefore has to run before any record of the file
+//@ # - in particular its reference counts - is touched, or a surviving file's record would go on
+//@ # marking a chunk present that is no longer stored.
+//@ extern func (*ChunkInfo).CancelFindChunkInfo
+//@   assigns nothing
+//@ extern func (*ChunkInfo).getPyramidHash
+//@   ensures result1 == nil ==> result0 != nil
+//@   assigns nothing
+//@ extern func (*ChunkInfo).DelChunkInfoSource
+//@   assigns ghost recordUpdates
+//@ extern func (*sync.Map).Delete
+//@   assigns nothing
+//@ func (*ChunkInfo).DelFile
+//@   property C17
+//@   requires ci != nil && ci.cp != nil && del != nil
+//@   let u0 = recordUpdates
+//@   callassert param.del chunks-are-dropped-before-any-record-of-the-file-is-touched: recordUpdates == u0
